@@ -1,57 +1,27 @@
 /-
   Model of AcraNetwork/IRIG106/Chapter11/Video.py: `VideoFormat2`.
 
-  The nested `AcraNetwork.MPEGTS.MPEGTS` object is modelled only as far as the Chapter 11 wrapper needs
-  it (the MPEG family owns the transport-stream model): a list of chunks of at most 188 bytes, a
-  chunk being accepted when it has the 4-byte header, starts with the sync byte 0x47 and — if the
-  adaptation-control bits say "adaptation field and payload" — has the adaptation-length byte.
-  Re-encoding is modelled for chunks without an adaptation field (control 0 or 1); for the others
-  `pack` / `==` answer `NotImplementedError` on both sides of the correspondence.
+  The nested `AcraNetwork.MPEGTS.MPEGTS` object IS the MPEG family's model (`Acra.Model.MPEGTS.TS`): `unpack`
+  decodes into a new `MPEGTS()` with `MPEGTS.unpack` (188-byte strides, each chunk through `MPEGPacket.unpack`,
+  adaptation fields and extensions included), `pack` is `MPEGTS.pack` (which mutates the adaptation-field objects of
+  the blocks, so `pack` returns the state), `__eq__` is `MPEGTS.__eq__`.
+
+  (Until the C04 extension this file carried a private chunk-level approximation of the transport stream and answered
+  `NotImplementedError` for every TS packet with an adaptation field.)
 -/
 import Acra.Py.Struct
-import Acra.Model.Ch11PayTs
+import Acra.Model.MPEGTS
 import Acra.Gen.Ch11Video
 namespace Acra.Model.Ch11Pay.Video
-open Acra.Py Acra.Gen.Ch11Video Acra.Model.Ch11Pay
-
-def byteAt (c : Bytes) (i : Nat) : Nat := (c.getD i 0).toNat
-
-/-- adaptation-field control: bits 5..4 of the fourth header byte -/
-def ctrl (c : Bytes) : Nat := (byteAt c 3 / 16) % 4
-
-/-- `MPEGPacket.unpack` does not raise on this chunk -/
-def chunkOk (c : Bytes) : Bool := decide (4 ≤ c.length) && byteAt c 0 == 0x47 && (ctrl c != 3 || decide (5 ≤ c.length))
-
-/-- the `payload` attribute `MPEGPacket.unpack` leaves -/
-def chunkPayload (c : Bytes) : Bytes :=
-  if ctrl c = 1 then c.drop 4 else if ctrl c = 3 then c.drop (5 + byteAt c 4) else []
-
-/-- `MPEGPacket.pack` of a decoded chunk without adaptation field: header, payload, 0xFF stuffing to 188 -/
-def chunkPack (c : Bytes) : R Bytes :=
-  if ctrl c = 2 ∨ ctrl c = 3 then .error .notImplemented else
-  let u := c.take 4 ++ chunkPayload c
-  .ok (u ++ List.replicate (188 - u.length) 0xFF)
+open Acra.Py Acra.Gen.Ch11Video Acra.Model.MPEGTS
 
 structure State where
   channel_specific_word : Nat
   datastream : Nat
-  blocks : List Bytes            -- `mpegts.blocks`, each as the chunk it was decoded from
+  mpegts : TS                    -- the nested `MPEGTS` object
   deriving Repr, DecidableEq
 
-def fresh : State := { channel_specific_word := 0, datastream := DATASTREAM_DEFAULT, blocks := [] }
-
-/-- `MPEGTS.unpack`: 188-byte strides; any failing chunk raises a bare `Exception` -/
-def splitTS (buf : Bytes) : Nat → Nat → R (List Bytes)
-  | 0, _ => .error .fuel
-  | fuel + 1, off =>
-    if off < buf.length then
-      let c := slice buf off (off + 188)
-      if chunkOk c then
-        match splitTS buf fuel (off + 188) with
-        | .ok cs => .ok (c :: cs)
-        | .error e => .error e
-      else .error .generic
-    else .ok []
+def fresh : State := { channel_specific_word := 0, datastream := DATASTREAM_DEFAULT, mpegts := TS.fresh }
 
 /-- `VideoFormat2.unpack` -/
 def unpack (s : State) (buf : Bytes) : State × R Unit :=
@@ -60,31 +30,24 @@ def unpack (s : State) (buf : Bytes) : State × R Unit :=
     let s1 := { s with channel_specific_word := csw }
     if (csw / 2 ^ IPH_OFFSET) % 2 = 1 then (s1, .error .generic) else
     let s2 := { s1 with datastream := (csw / 2 ^ TP_OFFSET) % 2 }
-    match splitTS (buf.drop 4) ((buf.drop 4).length + 1) 0 with
-    | .ok cs => ({ s2 with blocks := cs }, .ok ())
-    | .error e => ({ s2 with blocks := [] }, .error e)
+    -- self.mpegts = MPEGTS(); self.mpegts.unpack(buffer[4:])
+    match TS.unpack TS.fresh (buf.drop 4) with
+    | (ts, .ok _) => ({ s2 with mpegts := ts }, .ok ())
+    | (ts, .error e) => ({ s2 with mpegts := ts }, .error e)
   | .ok _ => (s, .error .struct)
   | .error e => (s, .error e)
 
-/-- `VideoFormat2.pack` -/
-def pack (s : State) : R Bytes :=
+/-- `VideoFormat2.pack`: `struct.pack("<I", csw) + self.mpegts.pack()` (left operand first) -/
+def pack (s : State) : State × R Bytes :=
   match structPack VID_pack_fmt0 [s.channel_specific_word] with
-  | .error e => .error e
+  | .error e => (s, .error e)
   | .ok h =>
-    match packList chunkPack s.blocks with
-    | .error e => .error e
-    | .ok body => .ok (h ++ body)
+    match TS.pack s.mpegts with
+    | (ts, .ok body) => ({ s with mpegts := ts }, .ok (h ++ body))
+    | (ts, .error e) => ({ s with mpegts := ts }, .error e)
 
-def blocksEq : List Bytes → List Bytes → R Bool
-  | [], [] => .ok true
-  | a :: as, b :: bs =>
-    if ctrl a = 2 ∨ ctrl a = 3 ∨ ctrl b = 2 ∨ ctrl b = 3 then .error .notImplemented else
-    if a.take 4 == b.take 4 && chunkPayload a == chunkPayload b then blocksEq as bs else .ok false
-  | _, _ => .ok false
-
-/-- `VideoFormat2.__eq__`: channel-specific word and the transport stream -/
-def eq (a b : State) : R Bool :=
-  if a.channel_specific_word != b.channel_specific_word then .ok false else
-  if a.blocks.length != b.blocks.length then .ok false else blocksEq a.blocks b.blocks
+/-- `VideoFormat2.__eq__` on two VideoFormat2 operands: channel-specific word and the transport stream -/
+def eq (a b : State) : Bool :=
+  if a.channel_specific_word != b.channel_specific_word then false else TS.eq a.mpegts b.mpegts
 
 end Acra.Model.Ch11Pay.Video
